@@ -201,8 +201,9 @@ def main(argv):
     probe_summary = None
     if prop.get('native_probe'):
         try:
-            pr = subprocess.run(['/venv/bin/python', os.path.join(ROOT, 'pyvc', prop['native_probe'] + '.py'), extract.REPO],
-                                capture_output=True, text=True, timeout=900)
+            pr = subprocess.run(['/venv/bin/python', os.path.join(ROOT, 'pyvc', prop['native_probe'] + '.py'), extract.REPO,
+                                 str(seed), '60' if tier == 'quick' else '600'],
+                                capture_output=True, text=True, timeout=1800)
             pd = json.loads(pr.stdout.strip().splitlines()[-1])
         except Exception as e:
             pd = dict(facts={}, scenarios=[], failures=[dict(part='A', error='probe did not run: %r' % (e,))])
